@@ -62,6 +62,9 @@ def render(progs: dict[int, list[str]], uid: str) -> str:
         for op in prog:
             if op == "gate":
                 src.append(f"    verif_gate.point('{uid}_{i}')")
+            elif op == "pgate":
+                src.append(f"    if verif_gate.Slow('{uid}_{i}') == 1:")
+                src.append("        x += 100")
             else:
                 src.extend(OP_SRC[op])
         src.append("    return x")
@@ -93,6 +96,7 @@ def run_behaviour(args) -> dict:
     go = {i: threading.Event() for i in progs}
     done = {i: threading.Event() for i in progs}
     results: dict[int, dict] = {}
+    raw: dict[int, object] = {}
 
     def driver():
         for i in sorted(progs):
@@ -100,6 +104,7 @@ def run_behaviour(args) -> dict:
             t0 = time.time()
             try:
                 res = executor.execute(tests[i])
+                raw[i] = res
                 proj = pyn.result_projection(sp, res)
                 proj["error"] = ""
             except BaseException as ex:  # noqa: BLE001
@@ -141,13 +146,21 @@ def run_behaviour(args) -> dict:
     for i in progs:
         go[i].set()
     evs = []
+    time.sleep(0.05)
     for i in sorted(progs):
         hung = not done[i].wait(4 * TIMEOUT + 30)
         r = results.get(i, {"timeout": False, "lines": [], "pred_lines": [], "exceptions": {},
                             "error": "no result", "elapsed_ms": 10 ** 6})
+        if i in raw:
+            # project the result object again at the very end: an abandoned execution must not add
+            # anything to it later either
+            late = pyn.result_projection(sp, raw[i])
+            r = dict(r, lines=sorted(set(r["lines"]) | set(late["lines"])),
+                     pred_lines=sorted(set(r["pred_lines"]) | set(late["pred_lines"])),
+                     exceptions={**r["exceptions"], **late["exceptions"]})
         prog = progs[i]
         nonterm = any(op in ("spin", "nap") for op in prog) or (
-            "gate" in prog and not released_before_result.get(i, False))
+            ("gate" in prog or "pgate" in prog) and not released_before_result.get(i, False))
         own = sorted(frange[i] | import_lines)
         evs.append({
             "e": "Result", "i": i, "prog": prog, "hung": bool(hung or r["error"] == "no result"),
